@@ -17,7 +17,10 @@ func init() {
 			"Not covered: agreement of concrete values after URL decoding beyond these two structural hazards.",
 		Assume:  []string{"the rule functions themselves are entry-point agnostic (they only see a reflect.Value): checked by C01/C05 for every kind"},
 		Trusted: []string{"go/types", "go/ssa"},
-		Run:     runC18,
+		Run: func(c *Ctx) {
+			runC18(c)
+			importRules(c, "C02", runC02Loop, "C18-LOOP", "every walker evaluates every rule item of a field: its rule loop leaves only through its header (rule C02-LOOP) — a walker that stops early at some item disagrees with its siblings on the rules after it", 4, nil)
+		},
 	})
 	register(&PropDef{
 		ID: "C16",
@@ -26,7 +29,7 @@ func init() {
 			"Not covered: the (ambiguous) treatment of top-level slices as outermost.",
 		Assume:  []string{"Go map lookup semantics"},
 		Trusted: []string{"go/types", "go/ssa"},
-		Run:     runC16,
+		Run:     func(c *Ctx) { runC16(c); sharedDeclaredRules(c) },
 	})
 }
 
